@@ -412,8 +412,53 @@ func TestVerif_C09(t *testing.T) {
 			seq++
 			mod := vModSpec{Seq: seq, SEID: ms.UP}
 			touched := map[uint32]bool{}
-			kind := rng.Intn(3)
+			kind := rng.Intn(4)
 			switch kind {
+			case 3:
+				// one more non-GBR QER, and every PDR of the session is updated to reference it as well: whatever it becomes,
+				// the QER that is the session-wide limiter so far stays what it is
+				// (only for sessions whose PDRs all carry <application QER, the same session QER>: the application QER is replaced)
+				// the QER the agent treats as the session-wide limiter right now: the live one without application entries
+				common := uint32(0)
+				nAbsent := 0
+				{
+					inApp := map[uint32]bool{}
+					for _, e := range a.bess.snapshot().AppQER {
+						if len(e.Fields) == 3 && e.Fields[2] == ms.UP {
+							inApp[uint32(e.Fields[1])] = true
+						}
+					}
+					for _, q := range ms.QERs {
+						if !inApp[q.Spec.ID] {
+							common = q.Spec.ID
+							nAbsent++
+						}
+					}
+				}
+				uniform := len(ms.PDRs) > 0 && nAbsent == 1 && !ms.qer(common).Spec.HasGBR && ms.qer(common).Spec.GateUL == 0 && ms.qer(common).Spec.GateDL == 0
+				for _, pd := range ms.PDRs {
+					if len(pd.Spec.QERs) != 2 || (pd.Spec.QERs[0] != common && pd.Spec.QERs[1] != common) || pd.Spec.QERs[0] == pd.Spec.QERs[1] {
+						uniform = false
+					}
+				}
+				if !uniform {
+					kind = 0
+					break
+				}
+				id := uint32(60 + step)
+				q := vQERSpec{ID: id, HasQFI: true, QFI: uint8(rng.Intn(64)), HasMBR: true, MBRUL: c09Rate(rng), MBRDL: c09Rate(rng)}
+				mod.CrQER = append(mod.CrQER, q)
+				touched[id] = true
+				for _, pd := range ms.PDRs {
+					np := pd.Spec
+					if np.QERs[0] == common {
+						np.QERs = []uint32{common, id}
+					} else {
+						np.QERs = []uint32{id, common}
+					}
+					mod.UpPDR = append(mod.UpPDR, np)
+				}
+				res.event("new_qer_referenced_by_every_pdr", 1)
 			case 0: // update 1-2 existing QERs
 				for c := 0; c < 1+rng.Intn(2); c++ {
 					q := ms.QERs[rng.Intn(len(ms.QERs))]
@@ -472,6 +517,11 @@ func TestVerif_C09(t *testing.T) {
 			for _, x := range mod.CrPDR {
 				ms.PDRs = append(ms.PDRs, mNewPDR(x, nil, 0))
 				lateP[x.ID] = true
+			}
+			for _, x := range mod.UpPDR {
+				if pd := ms.pdr(x.ID); pd != nil {
+					pd.Spec.QERs = append([]uint32{}, x.QERs...)
+				}
 			}
 			res.event("modifications", 1)
 			nv := res.nViol()
